@@ -701,6 +701,50 @@ def rule_check_finite(rep: Report, repo: Repo):
                                     rtext(c.ast.value.args[0], env_at(c.ast, g)) in argtext) for c in calls)
         rep.check(okarg, R, f"series::BlockSeries.__getitem__ `self.{name}` receives {argtext[0]}",
                   norm(calls[0].ast) if calls else "missing", repo.loc("series", g))
+    # the trial array is large enough along every order axis: its extent for an order item is at least the largest order that item
+    # selects, plus one -- numpy clips a slice silently, so a shorter extent would drop requested orders (C19: numpy semantics)
+    from .absval import Interp as _Interp
+    ext = None
+    from .resolve import env_at as _ea_t, resolved as _rs_t
+    for tn in trial:
+        for c in ast.walk(_rs_t(tn.ast.value, _ea_t(tn.ast, g))):
+            if isinstance(c, (ast.GeneratorExp, ast.ListComp)) and len(c.generators) == 1 and isinstance(c.generators[0].target, ast.Name) \
+                    and not c.generators[0].ifs:
+                ext = (c.elt, c.generators[0].target.id)
+    if ext is None:
+        # the shape may be built in a local first
+        for st_ in own_nodes(g):
+            if isinstance(st_, ast.Assign) and any("shape" in norm(t_) for t_ in st_.targets):
+                for c in ast.walk(st_.value):
+                    if isinstance(c, (ast.GeneratorExp, ast.ListComp)) and len(c.generators) == 1 and isinstance(c.generators[0].target, ast.Name) \
+                            and not c.generators[0].ifs and "shape" not in norm(c.generators[0].iter):
+                        ext = (c.elt, c.generators[0].target.id)
+    if ext is None:
+        raise AnalysisError(R, "__getitem__: the extent of the trial array per order item was not found")
+    ext_expr, ext_var = ext
+    GOOD = {"int": [0, 3], "slice": [slice(None, 3), slice(1, 4), slice(0, 5, 2), slice(1, 6, 2), slice(2, 9, 3), slice(0, 6, 2)],
+            "list[int]": [[0, 2], [3], [4, 1]]}
+    short = []
+    for kind_, reps in GOOD.items():
+        for r_ in reps:
+            if isinstance(r_, slice):
+                sel = list(range(*r_.indices(r_.stop)))
+                need = (max(sel) + 1) if sel else 0
+            elif isinstance(r_, list):
+                need = max(r_) + 1
+            else:
+                need = r_ + 1
+            try:
+                got = _Interp({ext_var: r_, "np": None}, R).ev(ext_expr)
+            except GuardTypeError as e_:
+                raise AnalysisError(R, f"__getitem__: extent `{norm(ext_expr)[:60]}` cannot be evaluated for the order item {r_!r} ({e_})")
+            if not isinstance(got, int) or isinstance(got, bool):
+                raise AnalysisError(R, f"__getitem__: extent `{norm(ext_expr)[:60]}` gives {got!r} for the order item {r_!r}")
+            if got < need:
+                short.append(f"{r_!r}: extent {got}, needs {need}")
+    rep.check(not short, R, "series::BlockSeries.__getitem__ the trial array holds every order an index item selects",
+              ("too short for " + "; ".join(short) + ": numpy clips the slice and the last requested orders are dropped") if short
+              else f"extent `{norm(ext_expr)[:70]}` evaluated on {sum(len(v) for v in GOOD.values())} representative order items", repo.loc("series", g))
     # _check_number_perturbations rejects a wrong number of indices
     h = repo.find("series::BlockSeries::_check_number_perturbations", R)
     from itertools import product as _prod
